@@ -11,12 +11,16 @@ def m_apply_if_rows(v, params):
     # the operators a (2) and i (3) produce no result event of their own in the step machine (a is a tail call, i
     # returns its choice directly to the parent): the row opened for them is closed by the next value computed by
     # *another* evaluation, so it pairs the operator and its arguments with a foreign value
-    return v["kind"] == "false-row" and v.get("model_explains") is True and all(r["op"] in (["a", [2]], ["a", [3]]) for r in v["false_rows"])
+    # On the terms TLC enumerates (family "replay") the row assembler of the specification must produce exactly the observed
+    # rows for the disagreement to count as this finding; on random raw CLVM and compiled programs the model is not exact
+    # about what is emitted before a failure (counted as drift), there the operator of the false rows decides
+    return v["kind"] == "false-row" and all(r["op"] in (["a", [2]], ["a", [3]]) for r in v["false_rows"]) and \
+        (v.get("family") != "replay" or v.get("model_explains") in ("yes", "unknown"))
 
 
 def m_headform(v, params):
     # C06-K1 seen through the debugger: a form whose head is a pair
-    return v["kind"] in ("terminal-row-differs", "false-row") and v.get("model_explains") is True and (cc.contains_headform(v["case"]["prog"]) or cc.contains_headform(v["case"]["env"]))
+    return v["kind"] in ("terminal-row-differs", "false-row") and (v.get("family") != "replay" or v.get("model_explains") in ("yes", "unknown")) and (cc.contains_headform(v["case"]["prog"]) or cc.contains_headform(v["case"]["env"]))
 
 
 MATCHERS = {"apply_if_rows": m_apply_if_rows, "headform": m_headform}
@@ -31,12 +35,14 @@ def _validate(acc, trace, rep, name):
         ev = json.loads(lines[l - 1])
         case = {"prog": ev["prog"], "env": ev["env"]}
         if why["false_rows"]:
-            rep["violations"].append({"property": "C12", "kind": "false-row", "case": case, "model_explains": why.get("model_explains"),
+            if why.get("model_explains") == "no":
+                acc.drift += 1
+            rep["violations"].append({"property": "C12", "kind": "false-row", "case": case, "model_explains": why.get("model_explains"), "family": name,
                                       "false_rows": [ev["rows"][i - 1] for i in why["false_rows"]], "consensus": ev["cons"]})
         if not why["numbering"]:
             rep["violations"].append({"property": "C12", "kind": "rows-not-consecutive", "case": case, "rows": [r["row"] for r in ev["rows"]]})
         if not why["terminal"]:
-            rep["violations"].append({"property": "C12", "kind": "terminal-row-differs", "case": case, "consensus": ev["cons"], "model_explains": why.get("model_explains"),
+            rep["violations"].append({"property": "C12", "kind": "terminal-row-differs", "case": case, "consensus": ev["cons"], "model_explains": why.get("model_explains"), "family": name,
                                       "last": ev["rows"][-1] if ev["rows"] else None})
     acc.add_report(rep)
     for k, v in res["cnt"].items():
